@@ -1,8 +1,15 @@
 // Collaborators of the two sink arms (WriteTop, WritePath) — C01 item 4, C18.
 #[verifier::external_body]
 pub struct VxOpaque { _p: () }
+// Error: only the shape the Include arm looks at (`e.kind` is a RenderingError or something else)
 #[verifier::external_body]
-pub struct Error { _p: () }
+pub struct ReportError { _p: () }
+impl ReportError {
+    #[verifier::external_body]
+    pub fn add_note(&mut self, label: &str, name: &str, source: &str, span: &Span) { unimplemented!() }
+}
+pub enum ErrorKind { RenderingError(Box<ReportError>), VxOtherKinds(VxOpaque) }
+pub struct Error { pub kind: ErrorKind, pub vx_opaque: VxOpaque }
 pub type TeraResult<T> = Result<T, Error>;
 impl Error {
     /// `From<io::Error> for Error` (what `?` applies at the sink sites)
@@ -20,6 +27,8 @@ pub struct Chunk { _p: () }
 /// which span of which instruction a `&Span` obtained from the chunk is
 pub uninterp spec fn span_tag(s: &Span) -> (u32, usize);
 impl Chunk {
+    #[verifier::external_body]
+    pub fn get_span(&self, idx: u32) -> Option<&Span> { unimplemented!() }
     #[verifier::external_body]
     pub fn get_span_at(&self, idx: u32, span_idx: usize) -> (r: Option<&Span>)
         ensures r is Some ==> span_tag(r->Some_0) == (idx, span_idx)
@@ -112,3 +121,12 @@ impl Value {
 pub fn vx_new_writer(cap: usize) -> (r: VxWriter) ensures r.bytes@ == Seq::<u8>::empty() { unimplemented!() }
 #[verifier::external_body]
 pub fn vx_str_as_bytes(s: &String) -> (r: &[u8]) ensures r@ == str_bytes(*s) { unimplemented!() }
+
+/// R6 sibling: `std::mem::take(&mut v[i])` on a vector of writers: returns v[i], leaves an empty one
+#[verifier::external_body]
+pub fn vx_take_writer(v: &mut Vec<VxWriter>, i: usize) -> (r: VxWriter)
+    requires i < old(v).len()
+    ensures r == old(v)[i as int], final(v).len() == old(v).len(),
+            forall|j: int| 0 <= j < old(v).len() && j != i ==> final(v)[j] == old(v)[j],
+            final(v)[i as int].bytes@ == Seq::<u8>::empty()
+{ unimplemented!() }
